@@ -60,6 +60,10 @@ def _plain(draw, kind):
     table = {"DNA": DNA, "RNA": RNA, "PROTEIN": AA}[alphabet]
     n = draw(st.sampled_from([1, 2, 3])) if draw(st.integers(0, 5)) == 0 else draw(st.integers(1, 60))
     letters = [draw(st.sampled_from(sorted(table))) for _ in range(n)]
+    if alphabet == "PROTEIN" and n >= 3 and draw(st.integers(0, 5)) == 0:
+        # a peptide whose one-letter sequence happens to spell the name of another alphabet (Asp-Asn-Ala ...)
+        at = draw(st.integers(0, n - 3))
+        letters[at:at + 3] = list(draw(st.sampled_from(["DNA", "RNA"])))
     lines = _break(draw, letters)
     # the file may end without a line break after its last line
     spec = {"kind": kind, "alphabet": alphabet, "letters": letters, "lines": lines,
@@ -72,7 +76,8 @@ def _plain(draw, kind):
         spec["circular"] = draw(st.booleans()) and n >= 3
         spec["comments"] = draw(st.integers(1, 3))
         spec["second"] = draw(st.booleans())
-        spec["title"] = draw(st.sampled_from(["title", "my sequence", "seq_A", "XYZ", "TAG", "GATTACA", "CAT"]))
+        spec["title"] = draw(st.sampled_from(["title", "my sequence", "seq_A", "XYZ", "TAG", "GATTACA", "CAT",
+                                                "DNA_ligase_fragment", "RNA polymerase subunit"]))
     else:
         spec["second"] = draw(st.booleans())
         spec["blank_end"] = draw(st.booleans())
